@@ -201,6 +201,10 @@ def judge(case, outcome, exp, t_info):
     if exp[0] == "pending":
         if outcome[0] == "pending" or outcome == ("exc", "TimeoutError"):
             return ok(**info)
+        if case.get("term") == "trickle" and outcome[0] == "exc":
+            D_ = s2b(case["stream"])[: case["term_at"]]
+            if reference(D_ + b"." * 40, "stall")[0] == "exc":
+                return ok(trickle_reached_cap=True, **info)  # the trickled bytes push the body over the size cap
         return viol("result-before-end-of-stream", f"{outcome}", **info)
     if outcome[0] == "pending":
         return viol("call-did-not-terminate", f"expected {exp}", **info)
